@@ -1,4 +1,5 @@
 import KM.Props.C14Go
+import KM.Gen.GoChal
 /-! # C16 — lock discipline of `validateUserTOTP` on the TRANSLATED source (go2lean)
 
 The mutex operations and the writes to the shared per-user rate-limit table are effects of the translation
@@ -19,3 +20,82 @@ example : ¬ Disciplined [.storeRate ⟨0, 0, 0, 0⟩] ∧ ¬ Disciplined [.lock
   refine ⟨?_, ?_, ?_⟩ <;> simp [Disciplined, lockStep]
 
 end KM.Totp
+
+/-! ### `consumeLoginChallenge` as translated: a hardware-token challenge is spent once -/
+namespace KM.Chal
+open KM.Go KM.GoTypes
+
+/-- the translated function in normal form: under one hold of `state.Mutex` the pending challenge is compared with
+the one the assertion was made over and removed — or nothing happens -/
+theorem c16_go_consume_atomic (stored : localUserData × Bool) (user : Str) (used : localUserData) :
+    KM.Gen.GoChal.consumeLoginChallenge stored user used =
+      if stored.2 = true ∧ stored.1.U2fAuthChallenge = used.U2fAuthChallenge ∧
+         stored.1.WebAuthnChallenge = used.WebAuthnChallenge
+      then (true, [.lock, .delete user, .unlock]) else (false, [.lock, .unlock]) := by
+  obtain ⟨cur, ok⟩ := stored
+  unfold KM.Gen.GoChal.consumeLoginChallenge
+  dsimp only
+  cases ok with
+  | false => simp
+  | true =>
+    by_cases h1 : cur.U2fAuthChallenge = used.U2fAuthChallenge <;>
+    by_cases h2 : cur.WebAuthnChallenge = used.WebAuthnChallenge <;> simp [h1, h2]
+
+/-- what a call sees of the table and what it leaves: `state.localAuthData[user]` before and after (the function is
+one critical section, so concurrent presentations are a sequence of such steps in some order) -/
+def consumeStep (user : Str) (st : Option localUserData) (used : localUserData) : Bool × Option localUserData :=
+  ((KM.Gen.GoChal.consumeLoginChallenge (match st with | some c => (c, true) | none => (⟨0, 0, 0⟩, false)) user used).1,
+   if ChalEffect.delete user ∈
+       (KM.Gen.GoChal.consumeLoginChallenge (match st with | some c => (c, true) | none => (⟨0, 0, 0⟩, false)) user used).2
+   then none else st)
+
+/-- the answers of a sequence of presentations (any assertions, in any order) against one table entry -/
+def answers (user : Str) : Option localUserData → List localUserData → List Bool
+  | _, [] => []
+  | st, u :: rest => (consumeStep user st u).1 :: answers user (consumeStep user st u).2 rest
+
+theorem consumeStep_true {user : Str} {st : Option localUserData} {used : localUserData}
+    (h : (consumeStep user st used).1 = true) : (consumeStep user st used).2 = none := by
+  unfold consumeStep at *
+  rw [c16_go_consume_atomic] at *
+  cases st with
+  | none => simp at h
+  | some c =>
+    dsimp only at h ⊢
+    by_cases hc : c.U2fAuthChallenge = used.U2fAuthChallenge ∧ c.WebAuthnChallenge = used.WebAuthnChallenge
+    · simp [hc]
+    · simp [hc] at h
+
+theorem answers_none (user : Str) (us : List localUserData) : ∀ b ∈ answers user none us, b = false := by
+  induction us with
+  | nil => intro b hb; cases hb
+  | cons u rest ih =>
+    intro b hb
+    have h1 : consumeStep user none u = (false, none) := by
+      unfold consumeStep; rw [c16_go_consume_atomic]; simp
+    simp only [answers, h1, List.mem_cons] at hb
+    rcases hb with rfl | hb
+    · rfl
+    · exact ih b hb
+
+/-- **one challenge, at most one success** — on the translated source, for ANY number of presentations of ANY
+assertions in ANY order against one pending challenge: at most one of them is honoured -/
+theorem c16_go_consume_at_most_once (user : Str) (st : Option localUserData) (us : List localUserData) :
+    ((answers user st us).filter (· = true)).length ≤ 1 := by
+  induction us generalizing st with
+  | nil => simp [answers]
+  | cons u rest ih =>
+    simp only [answers]
+    cases hb : (consumeStep user st u).1 with
+    | false => simpa [List.filter] using ih _
+    | true =>
+      rw [consumeStep_true hb]
+      have hn := answers_none user rest
+      have : (answers user none rest).filter (· = true) = [] := by
+        rw [List.filter_eq_nil_iff]
+        intro b hbm
+        simp [hn b hbm]
+      have hnt : true ∉ answers user none rest := fun hm => by simpa using hn true hm
+      simp [List.filter, hnt]
+
+end KM.Chal
